@@ -62,6 +62,11 @@ fn oracle(before: &Obs, after: &Obs, rule_applied: bool) -> Result<(), String> {
         if after.n > before.cutoff {
             return Err(format!("sweep with cutoff {} left n={}", before.cutoff, after.n));
         }
+        // the documented rule, exactly: new = max(old, n + n/2 + 1) with n as left by the sweep
+        let want = before.cutoff.max(after.n + after.n / 2 + 1);
+        if after.cutoff != want {
+            return Err(format!("growth rule: cutoff {} after the step, max(old = {}, n + n/2 + 1 = {}) = {} expected (n = {})", after.cutoff, before.cutoff, after.n + after.n / 2 + 1, want, after.n));
+        }
         if after.len < before.cutoff {
             return Err(format!("container length {} below the cutoff {} the sweep used", after.len, before.cutoff));
         }
@@ -988,6 +993,96 @@ fn run_temperings(gen: &mut SplitMix64, rounds: usize, tr: &mut Tracker) {
     run_tempering_mixed(gen, "generic", reps, rounds, tr);
 }
 
+// ---------------------------------------------------------------------------------------------
+// LONG-STRING stream: 8 spins at beta in the hundreds (several thousand operators), started from a tiny
+// cutoff so that the rule does all the growing.  Same `step` cases (model: nextCutoff / growLen) and the
+// same model-free oracle as the small systems (cutoff never decreases, new = max(old, n + n/2 + 1) exactly,
+// n < cutoff, container = the cutoff the sweep used <= cutoff); the per-slot `sweep` cases are left out here
+// (occupancy strings of 10^4 slots per step would dominate the run for no extra information).
+// ---------------------------------------------------------------------------------------------
+fn emit_step_long(site: &str, before: &Obs, after: &Obs, tr: &mut Tracker) {
+    if after.cutoff > before.cutoff {
+        tr.grew += 1;
+    }
+    tr.steps += 1;
+    emit(
+        true,
+        &format!("step {} {} {} {}", site, before.cutoff, before.len, after.n),
+        &format!("{} {}", after.cutoff, after.len),
+        Some(oracle(before, after, true)),
+    );
+}
+
+fn run_long(gen: &mut SplitMix64, beta: f64, generic: bool, heatbath: bool, parts: bool, steps: usize, tr: &mut Tracker) {
+    let nv = 8;
+    let edges: Vec<((usize, usize), f64)> = (0..nv).map(|a| ((a, (a + 1) % nv), if a % 3 == 0 { -1.0 } else { 1.0 })).collect();
+    let c0 = 1 + gen.below(3) as usize;
+    let mut g = G::new_with_rng(edges, 1.0, 0.0, c0, SplitMix64::new(gen.next()), None);
+    let label = format!("{}{}{}", if generic { "generic" } else { "ising" }, if heatbath { "-hb" } else { "" }, if parts { "-parts" } else { "" });
+    let mut nmax = 0;
+    if generic {
+        let mut q = g.into_qmc();
+        q.set_do_heatbath(heatbath);
+        for _ in 0..steps {
+            let before = obs_q(&q);
+            let r = catch(|| {
+                if parts {
+                    q.diagonal_update(beta);
+                    let mid = obs_q(&q);
+                    if q.should_do_cluster_update() {
+                        q.cluster_update().unwrap();
+                    }
+                    q.flip_free_bits();
+                    mid
+                } else {
+                    q.timestep(beta);
+                    obs_q(&q)
+                }
+            });
+            match r {
+                Ok(mid) => emit_step_long(&format!("long-{}", label), &before, &mid, tr),
+                Err(p) => {
+                    emit(true, &format!("step {} {} {} {}", label, before.cutoff, before.len, before.n), "panic", Some(Err(format!("step panicked: {} (cutoff={} n={})", p, before.cutoff, before.n))));
+                    return;
+                }
+            }
+            nmax = nmax.max(QmcStepper::get_n(&q));
+        }
+    } else {
+        if heatbath {
+            g.set_enable_heatbath(true);
+        }
+        for _ in 0..steps {
+            let before = obs_g(&g);
+            let r = catch(|| {
+                if parts {
+                    g.single_diagonal_step(beta);
+                    let mid = obs_g(&g);
+                    g.single_cluster_step();
+                    mid
+                } else {
+                    g.timestep(beta);
+                    obs_g(&g)
+                }
+            });
+            match r {
+                Ok(mid) => emit_step_long(&format!("long-{}", label), &before, &mid, tr),
+                Err(p) => {
+                    emit(true, &format!("step {} {} {} {}", label, before.cutoff, before.len, before.n), "panic", Some(Err(format!("step panicked: {} (cutoff={} n={})", p, before.cutoff, before.n))));
+                    return;
+                }
+            }
+            nmax = nmax.max(QmcStepper::get_n(&g));
+        }
+    }
+    stat("long_runs", 1);
+    println!("STAT long_{}_beta{}_nmax {}", label.replace('-', "_"), beta as u64, nmax);
+    let _ = &label;
+    if nmax > 2730 {
+        stat("long_runs_with_n_above_2730", 1);
+    }
+}
+
 /// Statistical sanity line (NOT a claim of the check): energy per run from cutoff 1 vs a generous one.
 fn sanity(seed: u64) {
     let edges = vec![((0, 1), 1.0), ((1, 2), 1.0), ((2, 3), 1.0), ((3, 0), 1.0)];
@@ -1029,6 +1124,21 @@ fn main() {
             run_tempering(&mut gen, true);
         }
     }
+    // long-string stream
+    let t0 = std::time::Instant::now();
+    if a.thorough {
+        for (i, beta) in [300.0, 500.0, 700.0].iter().enumerate() {
+            for (generic, hb) in [(false, false), (false, true), (true, false), (true, true)] {
+                run_long(&mut gen, *beta, generic, hb, (i + generic as usize + hb as usize) % 2 == 0, 60, &mut tr);
+            }
+        }
+    } else {
+        run_long(&mut gen, 180.0, false, false, false, 40, &mut tr);
+        run_long(&mut gen, 180.0, false, true, true, 40, &mut tr);
+        run_long(&mut gen, 180.0, true, true, false, 40, &mut tr);
+        run_long(&mut gen, 180.0, true, false, true, 40, &mut tr);
+    }
+    println!("STAT long_stream_millis {}", t0.elapsed().as_millis());
     stat("steps_total", tr.steps);
     stat("steps_where_cutoff_grew", tr.grew);
     sanity(a.seed);
